@@ -5,6 +5,7 @@ All theorems hold for every sequence and every count maximum `m ≥ 1` (no bound
 -/
 import TrimeshVerif.Proofs.RunLength
 import TrimeshVerif.Proofs.Views
+import TrimeshVerif.Proofs.Grid
 namespace TV.C13
 open TV.RunLength
 
@@ -215,6 +216,26 @@ example : inRange [2, 3, 4] [1, 2, 3] = true ∧ ravel [2, 3, 4] [1, 2, 3] = 23 
     flipIdx [2, 3, 4] [0, 2] [1, 2, 3] = [0, 2, 0] := by decide
 
 end views
+
+
+/-! ### grid addressing: `points_to_indices` / `indices_to_points` -/
+
+section grid
+open TV.Grid
+
+/-- **cell centres and indices are inverse**: `points_to_indices(indices_to_points(i)) = i` for every index, pitch
+    (non-zero) and origin; and every point closer than half a pitch to a cell centre is addressed as that cell -/
+theorem C13_grid (pitch origin : Rat) (i : Int) :
+    (pitch ≠ 0 → pointToIndex pitch origin (indexToPoint pitch origin i) = i) ∧
+    (0 < pitch → ∀ p, indexToPoint pitch origin i - pitch / 2 < p → p < indexToPoint pitch origin i + pitch / 2 →
+        pointToIndex pitch origin p = i) :=
+  ⟨fun hp => index_point_index pitch origin hp i, fun hp p h1 h2 => point_in_cell pitch origin p hp i h1 h2⟩
+
+/-- a point exactly between two cells goes to the even one (`np.round`) -/
+theorem C13_grid_ties (i : Int) : roundHE ((i : Rat) + 1 / 2) = if i % 2 = 0 then i else i + 1 :=
+  roundHE_half i
+
+end grid
 
 /-! non-vacuity: concrete instances exercised by evaluation (tests, labelled as such) -/
 example : denseToRle 2 [5, 5, 5, 5, 5, 3] = [(5, 2), (5, 2), (5, 1), (3, 1)] := by decide
